@@ -50,6 +50,7 @@ type c17Case struct {
 }
 
 type c17Report struct {
+	Injected   int    `json:"injected"`
 	SetupError string `json:"setup_error"`
 	Ifaces     []struct {
 		Name  string   `json:"name"`
